@@ -98,6 +98,7 @@ type Server struct {
 	faults []Fault
 	log    []Entry
 	ts     *httptest.Server
+	sparse bool
 }
 
 // New starts a server that accepts "Authorization: Bearer <token>".
@@ -277,11 +278,78 @@ func atoi(s string, def int) int {
 	return n
 }
 
+// SetSparse makes the server leave out every JSON member whose value is the zero value of its type
+// ("", 0, false, null, [] - the way an encoder with omitempty writes them). For a client that decodes
+// each document into a fresh value this is the same document.
+func (s *Server) SetSparse(on bool) { s.mu.Lock(); s.sparse = on; s.mu.Unlock() }
+
+type sparseWriter struct{ http.ResponseWriter }
+
+func prune(v any) any {
+	switch x := v.(type) {
+	case map[string]any:
+		for k, e := range x {
+			e = prune(e)
+			switch y := e.(type) {
+			case nil:
+				delete(x, k)
+				continue
+			case string:
+				if y == "" {
+					delete(x, k)
+					continue
+				}
+			case float64:
+				if y == 0 {
+					delete(x, k)
+					continue
+				}
+			case bool:
+				if !y {
+					delete(x, k)
+					continue
+				}
+			case []any:
+				if len(y) == 0 && k != "result" {
+					delete(x, k)
+					continue
+				}
+			}
+			x[k] = e
+		}
+		return x
+	case []any:
+		for i := range x {
+			x[i] = prune(x[i])
+		}
+		return x
+	}
+	return v
+}
+
+func (w sparseWriter) Write(b []byte) (int, error) {
+	var v any
+	if err := json.Unmarshal(b, &v); err != nil {
+		return w.ResponseWriter.Write(b)
+	}
+	out, err := json.Marshal(prune(v))
+	if err != nil {
+		return w.ResponseWriter.Write(b)
+	}
+	if _, err := w.ResponseWriter.Write(out); err != nil {
+		return 0, err
+	}
+	return len(b), nil
+}
+
 func (s *Server) serve(w http.ResponseWriter, req *http.Request) {
 	body, _ := io.ReadAll(req.Body)
 	req.Body.Close()
 	s.mu.Lock()
 	defer s.mu.Unlock()
+	if s.sparse {
+		w = sparseWriter{w}
+	}
 	e := Entry{Seq: len(s.log), Method: req.Method, Path: req.URL.Path, Query: req.URL.RawQuery, Body: string(body), Op: "other"}
 	defer func() { s.log = append(s.log, e) }()
 	e.AuthOK = req.Header.Get("Authorization") == "Bearer "+s.token
